@@ -586,6 +586,39 @@ def nested_move_histories(R, tier, rng):
                         R.fail("stale|nested-move|%s|mask" % which, "after moving the %s to %r the enclosing selection still gives %s (view %r), a fresh copy gives %s" % (which, t, fmt(got), v, fmt(exp)), None)
 
 
+def random_subset_histories(R):
+    """statistics over a random sample keep their sample positions between calls: after the dataset (or the view) changes shape the next
+    request must be answered as a fresh dataset would answer it (constant data, so the answer does not depend on the sample)"""
+    from glue.core import Data
+    cases = {
+        'refresh-same-size-other-shape': ((2, 50), (50, 2)), 'refresh-other-size': ((4, 30), (5, 5)), 'refresh-3d': ((2, 5, 10), (10, 5, 2)), 'refresh-same-shape': ((10, 10), (10, 10)),
+    }
+    for name, (s1, s2) in cases.items():
+        d = Data(x=np.full(s1, 3.0), label='d')
+        R.count(('random-subset', name), 'random-subset-histories')
+        try:
+            a = d.compute_statistic('maximum', d.id['x'], random_subset=10)
+            d.update_values_from_data(Data(x=np.full(s2, 7.0), label='d'))
+            b = d.compute_statistic('maximum', d.id['x'], random_subset=10)
+            c = d.compute_statistic('minimum', d.id['x'], random_subset=10)
+            ok, det = (a == 3.0 and b == 7.0 and c == 7.0), "maximum before %r, after the refresh maximum %r minimum %r (expected 3, 7, 7)" % (a, b, c)
+        except Exception as e:
+            ok, det = False, "raised %s: %s" % (type(e).__name__, e)
+        if not ok:
+            R.fail("stale|random-subset|%s" % name, "sampled statistic on constant data of shape %r refreshed to shape %r: %s" % (s1, s2, det), None)
+    d = Data(x=np.full((20, 20), 2.0), label='d')
+    for vname, views in {'two-views-same-size': [(slice(0, 5), slice(None)), (slice(None), slice(0, 5))], 'view-then-whole': [(slice(0, 10), slice(0, 10)), None],
+                         'three-views': [(slice(0, 4), slice(None)), (slice(None), slice(0, 4)), (slice(2, 6), slice(0, 20))]}.items():
+        R.count(('random-subset', vname), 'random-subset-histories')
+        try:
+            vals = [d.compute_statistic('maximum', d.id['x'], view=v, random_subset=10) for v in views]
+            ok, det = all(v == 2.0 for v in vals), "sampled maxima %r over views %r of constant data 2.0" % (vals, views)
+        except Exception as e:
+            ok, det = False, "raised %s: %s" % (type(e).__name__, e)
+        if not ok:
+            R.fail("stale|random-subset|%s" % vname, det, None)
+
+
 def fmt2(v):
     return v if isinstance(v, str) else np.asarray(v).tolist()
 
@@ -605,4 +638,5 @@ def run(tier, seed, R):
     link_histories(R, tier, rng)
     pixel_alignment_histories(R, tier, rng)
     nested_move_histories(R, tier, rng)
+    random_subset_histories(R)
     R.samples.append({"history": "selection (~rect|(gt^range)): observe; update_components({y,x}); observe vs fresh copy; move_to(5,3); observe vs fresh copy"})
